@@ -271,7 +271,9 @@ def BVV(value, size=None, **kwargs) -> BV:
             pass
 
     result = BV("BVV", (value, size), length=size, **kwargs)
-    _bvv_cache[(value, size)] = result
+    if not kwargs:
+        # (a constant built with annotations or other keyword arguments is not the plain constant)
+        _bvv_cache[(value, size)] = result
     return result
 
 
